@@ -578,6 +578,11 @@ def spec_family(stage):
     if stage == "N1-N2":
         yield from gen_dag.base_specs(1)
         yield from gen_dag.base_specs(2)
+        for n in (1, 2):  # a cached None is a result like any other
+            for s in gen_dag.base_specs(n):
+                for d in gen_dag.decorations(s):
+                    if d["deco"] == "returns-none":
+                        yield d
     elif stage in ("N2-decorated-mutations", "N2-decorated-mutations-quick"):
         # quick leaves out the PipeFunc-level default (same code path as the signature default after construction)
         kinds = ("sigdef", "pfdef", "bound-root", "bound-upstream") if stage == "N2-decorated-mutations" else ("sigdef", "bound-root", "bound-upstream")
